@@ -660,6 +660,14 @@ class Interpreter:
             elif isinstance(leaf, CompoundState) and leaf.initial:
                 return MicroStep(entered_states=[leaf.initial])
 
+        # An active orthogonal state must have all its children active. Some of them can be
+        # missing if a transition targets a state that is nested in one of its regions.
+        for name in sorted(names, key=lambda s: (self._statechart.depth_for(s), s)):
+            if isinstance(self._statechart.state_for(name), OrthogonalState):
+                missing = [c for c in self._statechart.children_for(name) if c not in names]
+                if missing:
+                    return MicroStep(entered_states=sorted(missing))
+
         return None
 
     def _apply_step(self, step: MicroStep) -> MicroStep:
